@@ -244,6 +244,7 @@ type Stmt struct {
 	ID          string
 	Cols        wire.Columns
 	ReuseRow    bool         // every row is written from one scratch slice that the handler re-uses (a scan loop)
+	ScanRow     bool         // rows are written from one slice of pointers to scalar destinations, filled in before each Row call (rows.Scan(dest...) followed by Row(dest))
 	Define      wire.Columns // not declared with the statement: the handler announces them itself through DataWriter.Define
 	Params      []oid.Oid
 	ParseParams bool // use wire.ParseParameters(query) for the declared parameters
@@ -391,12 +392,29 @@ func runStmt(ctx context.Context, s *Sess, st *Stmt, w wire.DataWriter, params [
 			c.CB("define", fmt.Sprintf("Columns() reports %d columns after Define of %d", len(got), len(st.Define)))
 		}
 	}
-	var scratch []any
+	var scratch, dests, vars []any
 	for i, op := range st.Ops {
 		r := OpRes{Stmt: st.ID, Idx: i, K: op.K, W0: c.WOff()}
 		var err error
 		switch op.K {
 		case "row", "badrow", "arity":
+			if st.ScanRow && op.K == "row" {
+				if len(dests) != len(op.Vals) {
+					dests, vars = make([]any, len(op.Vals)), make([]any, len(op.Vals))
+				}
+				for i, v := range op.Vals {
+					// vars are the handler's own variables; the slice handed to Row is only touched when a
+					// column needs another kind of destination than it has
+					if d := scanDest(vars[i], v); d != vars[i] || d == nil {
+						vars[i], dests[i] = d, d
+						if d == nil {
+							dests[i] = v
+						}
+					}
+				}
+				err = w.Row(dests)
+				break
+			}
 			if st.ReuseRow && op.K == "row" {
 				if len(scratch) != len(op.Vals) {
 					scratch = make([]any, len(op.Vals))
@@ -513,4 +531,60 @@ func runCopy(ctx context.Context, c *tr.Conn, st *Stmt, w wire.DataWriter, plan 
 		}
 		n++
 	}
+}
+
+// scanDest stores v in the destination variable the slot points to (as a Scan call does), creating the
+// destination when there is none of the right type yet; nil for values that are not plain scalars.
+func scanDest(slot, v any) any {
+	switch x := v.(type) {
+	case string:
+		if p, ok := slot.(*string); ok && p != nil {
+			*p = x
+			return slot
+		}
+		return &x
+	case bool:
+		if p, ok := slot.(*bool); ok && p != nil {
+			*p = x
+			return slot
+		}
+		return &x
+	case int:
+		if p, ok := slot.(*int); ok && p != nil {
+			*p = x
+			return slot
+		}
+		return &x
+	case int16:
+		if p, ok := slot.(*int16); ok && p != nil {
+			*p = x
+			return slot
+		}
+		return &x
+	case int32:
+		if p, ok := slot.(*int32); ok && p != nil {
+			*p = x
+			return slot
+		}
+		return &x
+	case int64:
+		if p, ok := slot.(*int64); ok && p != nil {
+			*p = x
+			return slot
+		}
+		return &x
+	case float32:
+		if p, ok := slot.(*float32); ok && p != nil {
+			*p = x
+			return slot
+		}
+		return &x
+	case float64:
+		if p, ok := slot.(*float64); ok && p != nil {
+			*p = x
+			return slot
+		}
+		return &x
+	}
+	return nil
 }
